@@ -9,6 +9,7 @@ mod plug;
 mod props;
 mod registry;
 mod rng;
+mod surgery;
 mod tok;
 
 use monitor::{Config, Tier};
@@ -86,20 +87,14 @@ fn main() {
         let v: serde_json::Value = serde_json::from_str(&text).expect("replay file is JSON");
         let case = v.get("case").cloned().unwrap_or(v);
         let started = std::time::Instant::now();
-        let local = match prop.as_str() {
-            "C02" => props::c02::replay(&cfg, &case),
-            "C07" => props::c07::replay(&cfg, &case),
-            _ => usage(),
-        };
+        let Some((_, replay_fn)) = props::dispatch(&prop) else { usage() };
+        let local = replay_fn(&cfg, &case);
         let mut cfg2 = cfg.clone();
         cfg2.prop = format!("{prop}");
         monitor::finish_replay(&cfg2, started, local)
     } else {
-        match prop.as_str() {
-            "C02" => props::c02::run(&cfg),
-            "C07" => props::c07::run(&cfg),
-            _ => usage(),
-        }
+        let Some((run_fn, _)) = props::dispatch(&prop) else { usage() };
+        run_fn(&cfg)
     };
     std::process::exit(code);
 }
